@@ -1525,6 +1525,8 @@ package log
 //@ spec fun refsOf(x any) *AppenderRefs = dyn(x, *SyncLogger) ? as(x, *SyncLogger).AppenderRefs : as(x, *AsyncLogger).AppenderRefs
 //@ spec fun refsFresh(c *AppenderRefs) bool = (forall k int :: 0 <= k && k < len(c.AppenderRefs) ==> c.AppenderRefs[k] != nil) && distinctRefs(c)
 
+// the tag list a configured logger carries (every registered class embeds LoggerBase)
+//@ spec fun tagsOf(x any) string = dyn(x, *SyncLogger) ? as(x, *SyncLogger).LoggerBase.Tags : (dyn(x, *AsyncLogger) ? as(x, *AsyncLogger).LoggerBase.Tags : (dyn(x, *DiscardLogger) ? as(x, *DiscardLogger).LoggerBase.Tags : (dyn(x, *ConsoleLogger) ? as(x, *ConsoleLogger).LoggerBase.Tags : (dyn(x, *FileLogger) ? as(x, *FileLogger).LoggerBase.Tags : as(x, *RollingFileLogger).LoggerBase.Tags))))
 //@ func Refresh/initAppenderRefs
 //@   requires plugOf(v) != nil && cAppenders != nil
 //@   requires hasRefs(plugOf(v)) ==> refsFresh(refsOf(plugOf(v)))
@@ -1533,6 +1535,7 @@ package log
 //@   modifies elemsof(refsOf(x).AppenderRefs), all(AppenderRef.Level), all(AppenderRef.Appender)
 //@   nopanic[C01,C15]
 //@   ensures[C15:base-or-error] result1 == nil ==> result0 != nil
+//@   ensures[C02:base-of-the-logger] result1 == nil ==> result0.Tags == tagsOf(x)
 //@   ensures[C15:registered-classes-are-accepted] registeredLogger(x) && !hasRefs(x) ==> result1 == nil
 //@   ensures[C15:dangling-reference-is-an-error] hasRefs(x) && (exists k int :: 0 <= k && k < len(refsOf(x).AppenderRefs) && !has(cAppenders, old(refsOf(x).AppenderRefs[k]).Ref)) ==> result1 != nil
 //@   ensures[C01,C15:references-resolved] hasRefs(x) && result1 == nil ==> wfRefs(refsOf(x)) && (forall k int :: 0 <= k && k < len(refsOf(x).AppenderRefs) ==> refsOf(x).AppenderRefs[k].Appender == cAppenders[refsOf(x).AppenderRefs[k].Ref])
@@ -1620,7 +1623,7 @@ package log
 //@   ensures[C02:blank-entries-are-skipped] t == "" ==> result && tags == tags0 && err == old(err) && freevar(3) == old(freevar(3))
 //@   ensures[C02:malformed-wildcard-is-an-error] t != "" && malformedWildcard(t) ==> !result && freevar(0) == 1 && freevar(3) != nil && tags == tags0
 //@   ensures[C02:entry-is-recorded-trimmed] t != "" && !malformedWildcard(t) ==> result && freevar(0) == 0 && len(tags) == len(tags0) + 1 && tags[len(tags0)] == t && freevar(3) == old(freevar(3))
-//@   ensures[C02:earlier-entries-kept] t != "" && !malformedWildcard(t) ==> (forall k int :: 0 <= k && k < len(tags0) ==> tags[k] == old(tags[k]))
+//@   ensures[C02:earlier-entries-kept] result ==> (forall k int :: 0 <= k && k < len(tags0) ==> tags[k] == old(tags[k]))
 //@   ensures[C02:loop-goes-on-iff-no-error] result == (freevar(0) == 0) && (result ==> err == old(err))
 //@   ensures[C02:list-grows-in-place-or-into-a-new-array] sref(tags) == old(sref(tags)) || fresh(sref(tags))
 
@@ -1689,6 +1692,10 @@ package log
 //@ ghost var cfgRoot Logger
 //@ ghost var cfgLoggers gomap[string]Logger
 
+//@ spec fun tagPiece(T string, j int) string = str_trim(split_piece(T, ',', j))
+//@ spec fun nPieces(T string) int = split_count(T, ',')
+// how many of the first j entries of a tag list are non-blank: the position at which entry j is recorded
+//@ spec rec fun nbp(T string, j int) int = j <= 0 ? 0 : nbp(T, j - 1) + (tagPiece(T, j - 1) != "" ? 1 : 0)
 //@ func Refresh
 //@   callee findLoggerForTag = Refresh/findLoggerForTag
 //@   requires regWF() && regTagged() && propsWF() && liveListsWF()
@@ -1703,6 +1710,9 @@ package log
 //@   ensures[C16:registries-kept] regWF() && regTagged()
 //@   ensures[C16:every-tag-is-served] result == nil ==> (forall t string :: has(tagRegistry, t) ==> tagRegistry[t].logger != nil)
 //@   ensures[C02:every-tag-routed] result == nil ==> (forall t string :: has(tagRegistry, t) ==> tagRegistry[t].logger == route(cfgTags, cfgRoot, t))
+//@   ensures[C02:listed-tags-are-served-by-their-logger] result == nil ==> (forall n string, j int :: { wit(n), witi(j) } wit(n) && witi(j) && has(cfgLoggers, n) && n != "root" && 0 <= j && j < nPieces(tagsOf(cfgLoggers[n])) && tagPiece(tagsOf(cfgLoggers[n]), j) != "" ==> has(cfgTags, tagPiece(tagsOf(cfgLoggers[n]), j)) && cfgTags[tagPiece(tagsOf(cfgLoggers[n]), j)] == cfgLoggers[n])
+//@   ensures[C02:a-configured-root-lists-no-tags] result == nil ==> isold(ifval(cfgRoot)) || tagsOf(cfgRoot) == ""
+//@   ensures[C02:table-entries-are-well-formed] result == nil ==> (forall t string :: { wit(t) } wit(t) && has(cfgTags, t) ==> t != "" && !malformedWildcard(t))
 //@   ensures[C12:every-handle-bound-by-name] result == nil ==> (forall n string :: has(loggerMap, n) ==> has(cfgLoggers, loggerMap[n].name) && loggerMap[n].logger == cfgLoggers[loggerMap[n].name] && loggerMap[n].logger != nil)
 //@   ensures[C16:handles-only-bound-to-started-loggers] forall n string :: has(loggerMap, n) ==> loggerMap[n].logger == old(loggerMap[n].logger) || startedL[loggerMap[n].logger] > old(startedL)[loggerMap[n].logger]
 //@   ensures[C16:tags-only-bound-to-started-loggers] forall t string :: has(tagRegistry, t) ==> tagRegistry[t].logger == old(tagRegistry[t].logger) || startedL[tagRegistry[t].logger] > old(startedL)[tagRegistry[t].logger]
@@ -1713,14 +1723,24 @@ package log
 //@   loop 2 invariant[C02,C12,C15,C16:range] 0 <= $k && $k <= len(loggers)
 //@   loop 2 invariant[C02,C12,C15,C16:appenders] cAppenders != nil && (forall n string :: has(cAppenders, n) ==> cAppenders[n] != nil)
 //@   loop 2 invariant[C02,C12,C15,C16:loggers-so-far] cRoot != nil && cLoggers != nil && cTags != nil && fresh(cTags) && (forall n string :: has(cLoggers, n) ==> cLoggers[n] != nil) && has(cLoggers, "root") && cLoggers["root"] == cRoot
-//@   loop 2 invariant[C02,C12,C15,C16:names-so-far] forall n string :: has(cLoggers, n) ==> n == "root" || (exists i int :: { slot(loggers, i) } 0 <= i && i < $k && loggers[i] == n)
+//@   loop 2 invariant[C02,C12,C15,C16:names-so-far] forall n string :: has(cLoggers, n) ==> n == "root" || (exists i int :: { slot(loggers, i) } witi(i) && 0 <= i && i < $k && loggers[i] == n)
 //@   loop 2 invariant[C02,C12,C15,C16:root-default-or-configured] isold(ifval(cLoggers["root"])) || (exists i int :: { slot(loggers, i) } 0 <= i && i < $k && loggers[i] == "root")
 //@   loop 2 invariant[C02,C12,C15,C16:listed-tags-so-far] forall t string :: { wit(t) } wit(t) && has(cTags, t) ==> cTags[t] != nil && !isold(ifval(cTags[t])) && (exists n string :: { wit(n) } wit(n) && has(cLoggers, n) && cLoggers[n] == cTags[t])
+//@   loop 2 invariant[C02:earlier-loggers-own-their-tags] forall i, j int :: { witi(i), witi(j) } witi(i) && witi(j) && 0 <= i && i < $k && loggers[i] != "root" && 0 <= j && j < nPieces(tagsOf(cLoggers[loggers[i]])) && tagPiece(tagsOf(cLoggers[loggers[i]]), j) != "" ==> has(cTags, tagPiece(tagsOf(cLoggers[loggers[i]]), j)) && cTags[tagPiece(tagsOf(cLoggers[loggers[i]]), j)] == cLoggers[loggers[i]]
+//@   loop 2 invariant[C02:root-without-tags] (forall i int :: { witi(i) } witi(i) && 0 <= i && i < $k && loggers[i] == "root" ==> tagsOf(cLoggers["root"]) == "") && (isold(ifval(cRoot)) || tagsOf(cRoot) == "")
+//@   loop 2 invariant[C02:entries-well-formed] forall t string :: { wit(t) } wit(t) && has(cTags, t) ==> t != "" && !malformedWildcard(t)
+//@   rangefunc 1 invariant[C02:pieces] witi(len(tags)) && witi($k) && 0 <= $k && $k <= $n && $n == nPieces(base.Tags) && name != "root" && base.Tags == tagsOf(logger)
+//@   rangefunc 1 invariant[C02:count-so-far] len(tags) == nbp(base.Tags, $k)
+//@   rangefunc 1 invariant[C02:listed-so-far] (forall j int :: { nbp(base.Tags, j) } { tagPiece(base.Tags, j) } 0 <= j && j < $k && tagPiece(base.Tags, j) != "" ==> 0 <= nbp(base.Tags, j) && nbp(base.Tags, j) < len(tags) && tags[nbp(base.Tags, j)] == tagPiece(base.Tags, j))
+//@   rangefunc 1 invariant[C02:recorded-so-far] forall m int :: { witi(m) } witi(m) && 0 <= m && m < len(tags) ==> tags[m] != "" && !malformedWildcard(tags[m])
 //@   rangefunc 1 invariant[C02,C12,C15,C16:iterating] $jump == 0 && (sref(tags) == 0 || !$existed(sref(tags)))
 //@   loop 3 writes_own_objects
-//@   loop 3 invariant[C02,C12,C15,C16:range] 0 <= $k && $k <= len(tags)
+//@   loop 3 invariant[C02,C12,C15,C16:range] 0 <= $k && $k <= len(tags) && witi($k) && wit(name)
 //@   loop 3 invariant[C02,C12,C15,C16:listed-tags] cTags != nil && fresh(cTags) && (forall t string :: { wit(t) } wit(t) && has(cTags, t) ==> cTags[t] != nil && !isold(ifval(cTags[t])) && (exists n string :: { wit(n) } wit(n) && has(cLoggers, n) && cLoggers[n] == cTags[t]))
 //@   loop 3 invariant[C02,C12,C15,C16:this-logger] !isold(ifval(logger))
+//@   loop 3 invariant[C02:registered-so-far] forall m int :: { slot(tags, m) } 0 <= m && m < $k ==> has(cTags, tags[m]) && cTags[tags[m]] == logger
+//@   loop 3 invariant[C02:earlier-loggers-own-their-tags] forall i, j int :: { witi(i), witi(j) } witi(i) && witi(j) && 0 <= i && i < $k2 && loggers[i] != "root" && 0 <= j && j < nPieces(tagsOf(cLoggers[loggers[i]])) && tagPiece(tagsOf(cLoggers[loggers[i]]), j) != "" ==> has(cTags, tagPiece(tagsOf(cLoggers[loggers[i]]), j)) && cTags[tagPiece(tagsOf(cLoggers[loggers[i]]), j)] == cLoggers[loggers[i]]
+//@   loop 3 invariant[C02:entries-well-formed] forall t string :: { wit(t) } wit(t) && has(cTags, t) ==> t != "" && !malformedWildcard(t)
 //@   loop 3 invariant[C02,C12,C15,C16:loggers] cRoot != nil && (forall n string :: has(cLoggers, n) ==> cLoggers[n] != nil) && (forall n string :: has(cAppenders, n) ==> cAppenders[n] != nil) && has(cLoggers, "root") && cLoggers["root"] == cRoot && has(cLoggers, name) && cLoggers[name] == logger && logger != nil
 //@   loop 5 invariant[C02,C12,C15,C16:started-so-far] forall n string :: $visited[n] ==> startedL[cLoggers[n]] > old(startedL)[cLoggers[n]]
 //@   loop 5 invariant[C02,C12,C15,C16:never-unstarted] forall x Logger :: startedL[x] >= old(startedL)[x]
